@@ -541,8 +541,18 @@ func c07GenFilterToks(r *kit.Rand, depth int, out *[]c07Tok) {
 	}
 	if r.Chance(0.3) {
 		emit('(', "(")
-		for k := r.Range(1, 3); k > 0; k-- {
-			val()
+		n := r.Range(1, 3)
+		allLit := false
+		if r.Chance(0.15) {
+			n = r.Range(4, 14) // long alternative lists, half of them literals only
+			allLit = r.Bool()
+		}
+		for k := n; k > 0; k-- {
+			if allLit {
+				*out = append(*out, c07GenWord(r, c07Values, true))
+			} else {
+				val()
+			}
 			if k > 1 {
 				emit('O', "OR")
 			}
@@ -630,12 +640,39 @@ type c07RejectCase struct {
 	Text kit.B  // the broken text
 	Why  string // which must-reject class
 	Arg  kit.B  // unknown-order: the order name used
+	// Warm > 0 (projections only): the parser offered the text is not fresh
+	// but has already parsed other, valid projections successfully, as the
+	// commands' shared parser has: 1 = ParseWithUnit(".name"), 2 =
+	// Parse("goos,/size") then ParseWithUnit(""), 3 = Parse(".fullname").
+	Warm int `json:",omitempty"`
 }
 
-func c07ParseAs(text string, proj bool) error {
+func c07ParseAs(text string, proj bool, warm ...int) error {
 	if proj {
 		var pp benchproc.ProjectionParser
 		flt, _ := benchproc.NewFilter("*")
+		w := 0
+		if len(warm) > 0 {
+			w = warm[0]
+		}
+		var werr error
+		switch w {
+		case 1:
+			_, _, werr = pp.ParseWithUnit(".name", flt)
+		case 2:
+			if _, werr = pp.Parse("goos,/size", flt); werr == nil {
+				_, _, werr = pp.ParseWithUnit("", flt)
+			}
+		case 3:
+			_, werr = pp.Parse(".fullname", flt)
+		}
+		if werr != nil {
+			return fmt.Errorf("warm-up projection rejected: %v", werr)
+		}
+		if w > 0 && len(text)%2 == 1 {
+			_, _, err := pp.ParseWithUnit(text, flt)
+			return err
+		}
 		_, err := pp.Parse(text, flt)
 		return err
 	}
@@ -645,12 +682,12 @@ func c07ParseAs(text string, proj bool) error {
 
 func c07RejectCheck(c c07RejectCase) *kit.Fail {
 	if c.Base != "" {
-		if err := c07ParseAs(string(c.Base), c.Proj); err != nil {
+		if err := c07ParseAs(string(c.Base), c.Proj, c.Warm); err != nil {
 			return kit.Failf("valid-expression-rejected", "valid expression %q (proj=%v) rejected: %v", c.Base, c.Proj, err)
 		}
 	}
 	text := string(c.Text)
-	err := c07ParseAs(text, c.Proj)
+	err := c07ParseAs(text, c.Proj, c.Warm)
 	if err == nil {
 		sig := "must-reject-accepted-" + c.Why
 		if c.Why == "unknown-order" {
@@ -819,7 +856,12 @@ func c07RejectGen(r *kit.Rand, i int) c07RejectCase {
 				broken, why = c07With(toks, k+1, c07Tok{'@', "@"}, ot), "unknown-order"
 			}
 		default: // fixed texts of each class
-			fixed := []c07RejectCase{
+			fixed := []struct {
+				Proj       bool
+				Base, Text kit.B
+				Why        string
+				Arg        kit.B
+			}{
 				{false, "", "(", "unbalanced-parens-extra-open", ""}, {false, "", ")", "unbalanced-parens-extra-close", ""}, {false, "", "(a:b", "unbalanced-parens-missing-close", ""},
 				{false, "", "a:b)", "unbalanced-parens-extra-close", ""}, {false, "", "a:(b", "unbalanced-parens-missing-close", ""}, {false, "", "((a:b)", "unbalanced-parens-missing-close", ""},
 				{false, "", `a:"b`, "unterminated-quoted-word", ""}, {false, "", `"a:b`, "unterminated-quoted-word", ""}, {false, "", `a:"b\"`, "unterminated-quoted-word", ""}, {false, "", `a:"`, "unterminated-quoted-word", ""},
@@ -835,12 +877,21 @@ func c07RejectGen(r *kit.Rand, i int) c07RejectCase {
 				{true, "", "k@(a", "unbalanced-parens-missing-close", ""}, {true, "", "k@(a))", "unbalanced-parens-extra-close", ""}, {true, "", "k)", "unbalanced-parens-extra-close", ""}, {true, "", "(k", "unbalanced-parens-extra-open", ""}, {true, "", "k@a)", "unbalanced-parens-extra-close", ""},
 				{true, "", `"k`, "unterminated-quoted-word", ""}, {true, "", `k@"alpha`, "unterminated-quoted-word", ""}, {true, "", `k@(a "b)`, "unterminated-quoted-word", ""},
 			}
-			return kit.Pick(r, fixed)
+			f := kit.Pick(r, fixed)
+			fc := c07RejectCase{Proj: f.Proj, Base: f.Base, Text: f.Text, Why: f.Why, Arg: f.Arg}
+			if fc.Proj && r.Bool() {
+				fc.Warm = r.Range(1, 3)
+			}
+			return fc
 		}
 		if why == "" {
 			continue
 		}
-		return c07RejectCase{Proj: proj, Base: kit.B(base), Text: kit.B(c07Join(r, broken)), Why: why, Arg: kit.B(arg)}
+		warm := 0
+		if proj && r.Chance(0.5) {
+			warm = r.Range(1, 3)
+		}
+		return c07RejectCase{Proj: proj, Base: kit.B(base), Text: kit.B(c07Join(r, broken)), Why: why, Arg: kit.B(arg), Warm: warm}
 	}
 }
 
